@@ -219,6 +219,26 @@ func runC17(c *Ctx) {
 		}
 		to, why := extractModeFunc(p, "toFileMode")
 		from, why2 := extractModeFunc(p, "fromFileMode")
+		// not written as mask + switch + three ifs (a lookup table, helpers, another order): the same table is read
+		// off the function by evaluating it (eval.go) on one word per entry
+		if to == nil || len(to.problems) > 0 {
+			if t2, w2 := evalModeFunc(p, "toFileMode", true); t2 != nil {
+				to, why = t2, ""
+			} else if to == nil {
+				why += "; " + w2
+			} else {
+				to.problems = append(to.problems, "evaluation: "+w2)
+			}
+		}
+		if from == nil || len(from.problems) > 0 {
+			if f2, w2 := evalModeFunc(p, "fromFileMode", false); f2 != nil {
+				from, why2 = f2, ""
+			} else if from == nil {
+				why2 += "; " + w2
+			} else {
+				from.problems = append(from.problems, "evaluation: "+w2)
+			}
+		}
 		switch {
 		case to == nil:
 			c.und("R1", "toFileMode table", "stat.go", why)
@@ -1313,4 +1333,92 @@ func checkLongNameInstant(c *Ctx, rule string) {
 			"the long name formats ModTime() as the handler or the file system reports it, while the attribute block of the same entry carries uint32(ModTime().Unix()): for a time before 1970 or after 2106 (a zero time.Time, on 386 anything after 2038) the two show different dates")
 	}
 	c.check(n >= 1, rule, "time columns of the long name", p.Pos(fn.Pos()), fmt.Sprintf("%d Format calls", n), "no Format call in runLs")
+}
+
+// evalModeFunc reads the mode table off toFileMode (wire -> os) or fromFileMode (os -> wire) by evaluating the
+// function: the permission mask from the word with all low bits set, one case per value of the type field, one entry
+// per special bit, each relative to the plain regular file.
+func evalModeFunc(p *Program, name string, wireToOS bool) (*modeTable, string) {
+	fn := p.Func(name)
+	if fn == nil {
+		return nil, name + " not found"
+	}
+	M := func(n string) int64 { return osModeConst(p, n) }
+	call := func(arg int64) (int64, bool) {
+		ev := newEvaluator(p)
+		argT := fn.Params[0].Type()
+		st := ev.run(fn, []evVal{evInt(arg, argT)}, 0)
+		if st.kind != "return" || len(st.vals) != 1 || st.vals[0].k != evConst {
+			return 0, false
+		}
+		u, ok := constant.Uint64Val(constant.ToInt(st.vals[0].c))
+		return int64(u), ok
+	}
+	t := &modeTable{cases: map[int64]int64{}, specials: map[int64]int64{}}
+	if wireToOS {
+		base, ok := call(0x8000)
+		if !ok {
+			return nil, "cannot evaluate " + name + "(0x8000)"
+		}
+		all, ok := call(0x8000 | 0o777)
+		if !ok {
+			return nil, "cannot evaluate " + name
+		}
+		t.mask = (all &^ base) & 0xFFFFFFFF
+		t.tagMask = 0xF000
+		for nib := int64(0); nib < 16; nib++ {
+			w := nib << 12
+			got, ok := call(w)
+			if !ok {
+				return nil, fmt.Sprintf("cannot evaluate %s(%#x)", name, w)
+			}
+			zero, _ := call(0)
+			if w == 0x8000 || got != zero || w == 0 {
+				if w == 0 {
+					continue
+				}
+				t.cases[w] = got
+			}
+		}
+		// a type value that converts like "no type at all" is not a case, except the regular file
+		for _, bit := range []int64{0o4000, 0o2000, 0o1000} {
+			got, ok := call(0x8000 | bit)
+			if !ok {
+				return nil, "cannot evaluate " + name
+			}
+			t.specials[bit] = got &^ base
+		}
+		// bits outside the type field, the special bits and the permissions must not matter
+		return t, ""
+	}
+	base, ok := call(0)
+	if !ok {
+		return nil, "cannot evaluate " + name + "(0)"
+	}
+	all, ok := call(M("ModePerm"))
+	if !ok {
+		return nil, "cannot evaluate " + name
+	}
+	t.mask = 0
+	if all&^base == 0o777 {
+		t.mask = M("ModePerm")
+	} else {
+		t.mask = all &^ base
+	}
+	t.tagMask = M("ModeType")
+	for _, o := range []int64{M("ModeNamedPipe"), M("ModeDevice") | M("ModeCharDevice"), M("ModeDir"), M("ModeDevice"), 0, M("ModeSymlink"), M("ModeSocket")} {
+		got, ok := call(o)
+		if !ok {
+			return nil, fmt.Sprintf("cannot evaluate %s(%#x)", name, o)
+		}
+		t.cases[o] = got & 0xF000
+	}
+	for _, o := range []int64{M("ModeSetuid"), M("ModeSetgid"), M("ModeSticky")} {
+		got, ok := call(o)
+		if !ok {
+			return nil, "cannot evaluate " + name
+		}
+		t.specials[o] = got &^ base
+	}
+	return t, ""
 }
